@@ -245,7 +245,12 @@ class Scenario:
             elif self.special == "upper":
                 sup = [ord(c) for c in s.upper()]      # ClientRequest documents method.upper()
             elif self.special == "lower":
-                sup = [ord(c) for c in s.lower()]      # the charset setter documents str(value).lower()
+                # the charset setter documents str(value).lower(); lower-casing is context sensitive
+                # (a capital sigma becomes a final sigma after a cased letter), so take it from the whole token
+                a, b = self.ctx or ("", "")
+                a, b = (a if place in ("mid", "end") else ""), (b if place in ("mid", "start") else "")
+                low = self.token(s, place).lower()
+                sup = [ord(c) for c in low[len(a.lower()):len(low) - len(b.lower())]]
             elif self.special == "boundary":
                 body = body.replace(MARKB, s.encode("ascii", "replace"))
             if enc != "raw":
